@@ -94,3 +94,30 @@ func Harness_C10_polar_closure() {
 	vr.Assert("PolarClosure contains the rectangle", vr.Implies(a.ContainsLatLng(q), p.ContainsLatLng(q)))
 	vr.Reach("end")
 }
+
+// The special branches of RectBounder.AddPoint on concrete consecutive vertices: nearly
+// antipodal vertices make the bound full (the edge may pass anywhere), nearly identical
+// ones keep both end points inside (concrete instances executed in the engine).
+func Harness_C10_rectbounder_degenerate_edges() {
+	vr.Domain("FPX")
+	a := PointFromCoords(1, 0, 0)
+	var b Point
+	anti := vr.Bool("antipodal")
+	if anti {
+		b = Point{a.Mul(-1)}
+		b.Y = 5e-16 * 0.5
+		b.Z = 5e-16 * 0.866
+	} else {
+		b = a
+		b.Y = 3e-16
+	}
+	rb := NewRectBounder()
+	rb.AddPoint(a)
+	rb.AddPoint(b)
+	if anti {
+		vr.Assert("nearly antipodal consecutive vertices: the bound is full", rb.RectBound().IsFull())
+	} else {
+		vr.Assert("nearly identical consecutive vertices: both stay inside the bound", vr.And(rb.RectBound().ContainsPoint(a), rb.RectBound().ContainsPoint(b)))
+	}
+	vr.Reach("end")
+}
